@@ -695,6 +695,9 @@ func (vm *vm) runWithProfiler() bool {
 	}
 	interrupted := false
 	for {
+		if verifEnabled {
+			verifTick(vm)
+		}
 		if interrupted = atomic.LoadUint32(&vm.interrupted) != 0; interrupted {
 			return true
 		}
